@@ -1,12 +1,14 @@
 (* Model of packaging.utils.parse_wheel_filename / parse_sdist_filename and packaging.tags.Tag / parse_tag (C14).
-   Executable definitions only.  Strings are lists of code points; ASCII is exact.
-   Runtime behaviour on non-ASCII text is carried by explicit finite tables (validated against the interpreter by the check):
-     str.lower()       VMeaning.py_lower_c   (U+0130, U+212A; every other non-ASCII code point unchanged)
-     \w (re.UNICODE)   uni_word_table        (the non-ASCII code points the generators use; any other non-ASCII code point is not generated)
-     \d, int()         uni_digit_table       (likewise) *)
+   Executable definitions only.  Strings are lists of code points.
+   Runtime behaviour on non-ASCII text is carried by tables generated from the running interpreter (harness/tables_lower.py) and
+   re-validated against it, for every code point, on every check run (law.n.lowertable, law.f.tables):
+     str.lower()       NamesX.lower_full     (Gen/LowerTable.v: every code point lower() changes; the Final_Sigma rule for U+03A3)
+     \w (re.UNICODE)   Gen/WordTable.word_ranges
+     \d, int()         Gen/WordTable.digit_ranges
+   so the model is exact on every string of code points (lone surrogates are not generated). *)
 From Coq Require Import List Arith NArith Bool.
 Import ListNotations.
-Require Import S1 VParse VDec Py VMeaning SpecModel Names.
+Require Import S1 VParse VDec Py VMeaning SpecModel Names LowerTable WordTable NamesX.
 Open Scope N_scope.
 
 (* ---------------- Python str helpers ---------------- *)
@@ -42,8 +44,6 @@ Fixpoint rpart (c0 : char) (s : str) : option (str * str) :=
   end.
 Definition ends_with (suf s : str) : bool := str_eqb (skipn (length s - length suf) s) suf.   (* s.endswith(suf) *)
 Definition drop_last (n : nat) (s : str) : str := firstn (length s - n) s.                     (* s[:-n] on len(s) >= n *)
-Fixpoint take_line (s : str) : str :=                                                          (* what the group (dot star) matches: up to the first newline *)
-  match s with [] => [] | c :: t => if c =? 10 then [] else c :: take_line t end.
 
 (* ---------------- results ---------------- *)
 (* FErr = the documented exception of the entry point (InvalidWheelFilename / InvalidSdistFilename);
@@ -54,7 +54,7 @@ Arguments FOk {A} a. Arguments FErr {A}. Arguments FCrash {A} c.
 
 (* ---------------- tags.Tag, tags.parse_tag ---------------- *)
 Record tag := { t_interp : str; t_abi : str; t_plat : str }.
-Definition mk_tag (i a p : str) : tag := {| t_interp := py_lower i; t_abi := py_lower a; t_plat := py_lower p |}.   (* Tag.__init__ *)
+Definition mk_tag (i a p : str) : tag := {| t_interp := lower_full i; t_abi := lower_full a; t_plat := lower_full p |}.   (* Tag.__init__: three str.lower() *)
 Definition tag_str (t : tag) : str := t_interp t ++ 45 :: t_abi t ++ 45 :: t_plat t.                               (* Tag.__str__ *)
 (* Tag.__eq__, h = the precomputed hash((interpreter, abi, platform)), any function of the stored triple *)
 Definition tag_eq (h : str * str * str -> N) (x y : tag) : bool :=
@@ -70,16 +70,17 @@ Definition parse_tag (s : str) : fres (list tag) :=
   end.
 
 (* ---------------- the project-name check of parse_wheel_filename ---------------- *)
-Definition uni_word_table : list char := [178; 223; 233; 304; 305; 383; 1633; 8490; 65297].      (* U+00B2 U+00DF U+00E9 U+0130 U+0131 U+017F U+0661 U+212A U+FF11 *)
-Definition is_word (c : char) : bool := is_alnum c || (c =? 95) || existsb (N.eqb c) uni_word_table.   (* \w under re.UNICODE *)
+Definition is_word (c : char) : bool := is_alnum c || (c =? 95) || ((128 <=? c) && in_ranges c word_ranges).   (* \w under re.UNICODE *)
 Definition name_char (c : char) : bool := is_word c || (c =? 46).                                 (* [\w\d._]  (\d is inside \w) *)
 Fixpoint has_uu (s : str) : bool :=                                                              (* "__" in s *)
   match s with c :: t => match t with d :: _ => ((c =? 95) && (d =? 95)) || has_uu t | [] => false end | [] => false end.
 Definition name_bad (n : str) : bool := has_uu n || negb (forallb name_char n).
 
 (* ---------------- the build tag: _build_tag_regex = one or more \d as group 1, then dot-star (re.DOTALL) as group 2, used with .match; int(group 1) ---------------- *)
-Definition uni_digit_table : list (char * N) := [(1633, 1); (65297, 1)].                         (* U+0661 U+FF11 *)
-Definition uni_digit (c : char) : option N := option_map snd (find (fun p => fst p =? c) uni_digit_table).
+(* the value of a non-ASCII decimal digit: digit_ranges holds (lo, hi, value of lo), values ascending inside a range *)
+Definition uni_digit (c : char) : option N :=
+  if c <? 128 then None
+  else option_map (fun p => snd p + (c - fst (fst p))) (find (fun p => (fst (fst p) <=? c) && (c <=? snd (fst p))) digit_ranges).
 Definition is_d (c : char) : bool := is_digit c || match uni_digit c with Some _ => true | None => false end.      (* \d *)
 Definition to_ascii_digit (c : char) : char := match uni_digit c with Some v => 48 + v | None => c end.
 Definition int_of (ds : str) : N := num (map to_ascii_digit ds).                                 (* int() on a run of decimal digits *)
@@ -99,7 +100,7 @@ Definition parse_wheel (fn : str) : fres wheel_out :=
   let parts := split_max dash (dashes - 2) stem in
   match nth_error parts 0 with None => FCrash IndexError | Some name_part =>
   if name_bad name_part then FErr else
-  let name := canon_name name_part in
+  let name := canon_full name_part in
   match nth_error parts 1 with None => FCrash IndexError | Some ver_part =>
   match Version ver_part with None => FErr | Some v =>
   let tags_of (b : option (N * str)) : fres wheel_out :=
@@ -125,7 +126,7 @@ Definition parse_sdist (fn : str) : fres (str * version) :=
               else if ends_with w_zip fn then Some (drop_last 4 fn) else None in
   match stem with None => FErr | Some stem =>
   match rpart dash stem with None => FErr | Some (name_part, ver_part) =>
-  match Version ver_part with None => FErr | Some v => FOk (canon_name name_part, v) end end end.
+  match Version ver_part with None => FErr | Some v => FOk (canon_full name_part, v) end end end.
 
 (* ---------------- frozenset of tags as a canonical list: sorted by code points, duplicates dropped ---------------- *)
 Fixpoint insert_u (x : str) (l : list str) : list str :=
